@@ -11,5 +11,5 @@ Extraction "model.ml"
   probe_all ocl_of
   decode encode encode_list ops_of_tree flatten w_op w_ops
   el_raw_value_legacy tlv_try_next_legacy
-  mon_no_panic mon_within mon_roundtrip mon_scalar mon_reencode
+  mon_no_panic mon_within mon_roundtrip mon_scalar mon_reencode mon_read_back el_reencode_iter el_tag
   zoo denc ddec wb_new wb_run wb_as_slice wb_write_all denc_wb mon_prefix_intact.
